@@ -19,12 +19,20 @@ parameters is what `run_plumbing` wrote into the --ploidy / --inbreeding / --mcm
 Oracle (`check_run`): at every locus the recorded calls of a site can be attributed to the samples -- there is an
 injective assignment call -> sample under which every recorded field equals the sample's own value (ploidy, inbreeding,
 temperatures, reads, read counts, for `genotype_posteriors` the log-likelihoods of the sample's own reads) and the locus'
-value (haplotypes / frequencies after masking, MCMC settings of the command line); the assignment is searched over all
-orders, so nothing is demanded about the order in which a program visits its samples.  A locus where some sample got a
-called genotype must show one call per sample at the sites the program needs.  Violations carry the signature
-"Cxx/plumbing/<program>/<what>" (`what` = the first field that is wrong: reads, read_counts, log_likelihoods, ploidy,
-inbreeding, temperatures, haplotypes, frequencies, n_alleles, mcmc-settings, pedigree, calls, parsed-ploidy,
-parsed-inbreeding, run-failed).
+value (haplotypes / frequencies after masking); the assignment is searched over all orders, so nothing is demanded about
+the order in which a program visits its samples.  A locus where some sample got a called genotype must show one call per
+sample at the sites the program needs.
+
+Run-wide sampler options (`check_options`): the same runs give EVERY numeric sampler option of the program's parser a
+non-default value (assemble: --mcmc-steps / -burn / -chains / -seed / -fix-homozygous / -recombination-step-probability /
+-partial-dosage-step-probability / -dosage-step-probability / -llk-cache-threshold / -chain-incongruence-threshold,
+--haplotype-posterior-threshold; call and call-pedigree: steps, burn, chains, seed, chain-incongruence-threshold); the
+attribute of the model object at fit time, resp. the argument of `trace.burn`, `trace.replicate_incongruence`,
+`call_posterior_haplotypes`, must equal the command-line value.
+
+Violations carry the signature "Cxx/plumbing/<program>/<what>"; `what` = the first field that is wrong (reads,
+read_counts, log_likelihoods, ploidy, inbreeding, temperatures, haplotypes, frequencies, n_alleles, pedigree), or calls,
+parsed-ploidy, parsed-inbreeding, run-failed, option-<flag without dashes>.
 """
 from __future__ import annotations
 
@@ -43,9 +51,50 @@ from . import synth
 
 PROGRAMS = ("assemble", "call", "call-exact", "call-pedigree")
 PRIORITY = ["reads", "read_counts", "log_likelihoods", "ploidy", "inbreeding", "temperatures", "haplotypes", "frequencies",
-            "n_alleles", "pedigree", "mcmc-settings"]
+            "n_alleles", "pedigree"]
 TOL = 1e-12          # parameters are passed through, never computed
 EXTRA_SAMPLE = "NOT_IN_RUN"
+
+FIT_SITE = {"assemble": "DenovoMCMC.fit", "call": "CallingMCMC.fit", "call-pedigree": "PedigreeCallingMCMC.fit"}
+_COMMON_OPTIONS = [("mcmc-steps", "fit", "steps"), ("mcmc-chains", "fit", "chains"), ("mcmc-seed", "fit", "random_seed"),
+                   ("mcmc-burn", "burn", "n"), ("mcmc-chain-incongruence-threshold", "replicate_incongruence", "threshold")]
+# option (command-line flag without the dashes) -> where its value must arrive: ("fit", attribute of the model object at
+# fit time) | ("burn" / "replicate_incongruence", argument of that trace method) | ("haps", threshold of call_posterior_haplotypes)
+OPTIONS = {
+    "assemble": _COMMON_OPTIONS + [
+        ("mcmc-fix-homozygous", "fit", "fix_homozygous"),
+        ("mcmc-recombination-step-probability", "fit", "recombination_step_probability"),
+        ("mcmc-partial-dosage-step-probability", "fit", "partial_dosage_step_probability"),
+        ("mcmc-dosage-step-probability", "fit", "dosage_step_probability"),
+        ("mcmc-llk-cache-threshold", "fit", "llk_cache_threshold"),
+        ("haplotype-posterior-threshold", "haps", "threshold")],
+    "call": list(_COMMON_OPTIONS),
+    "call-pedigree": _COMMON_OPTIONS + [("mcmc-burn", "fit", "annealing")],
+    "call-exact": [],
+}
+DEFAULTS = {"mcmc-steps": 2000, "mcmc-chains": 2, "mcmc-seed": 42, "mcmc-burn": 1000, "mcmc-chain-incongruence-threshold": 0.6,
+            "mcmc-fix-homozygous": 0.999, "mcmc-recombination-step-probability": 0.5,
+            "mcmc-partial-dosage-step-probability": 0.5, "mcmc-dosage-step-probability": 1.0, "mcmc-llk-cache-threshold": 100,
+            "haplotype-posterior-threshold": 0.2}
+
+
+def nondefault_options(r, program):
+    """a non-default value for every numeric sampler option of `program` (pairwise different probabilities, so that two
+    options wired to each other's attribute are seen)"""
+    probs = r.sample([0.15, 0.25, 0.35, 0.45, 0.55, 0.65, 0.75, 0.85, 0.9], 5)
+    vals = {"mcmc-steps": r.choice([150, 200, 250]), "mcmc-burn": r.choice([50, 80, 100]), "mcmc-chains": r.choice([1, 3]),
+            "mcmc-seed": r.randint(100, 10 ** 6), "mcmc-chain-incongruence-threshold": probs[0],
+            "mcmc-fix-homozygous": r.choice([0.8, 0.9, 0.95, 1.0]), "mcmc-recombination-step-probability": probs[1],
+            "mcmc-partial-dosage-step-probability": probs[2], "mcmc-dosage-step-probability": probs[3],
+            "mcmc-llk-cache-threshold": r.choice([-1, 0, 37, 500]), "haplotype-posterior-threshold": probs[4]}
+    out = {}
+    for name, _, _ in OPTIONS[program]:
+        out[name] = vals[name]
+    return out
+
+
+def option_argv(options):
+    return [x for name, v in options.items() for x in ("--" + name, repr(v))]
 
 
 # --------------------------------------------------------------------------------------
@@ -132,6 +181,29 @@ class Recorder:
             setattr(module, name, fn)
             rec._restore.append((module, name, orig))
 
+        def wrap_method(cls, name, site):
+            orig = cls.__dict__[name]
+
+            def method(self, *args, **kwargs):
+                if rec.active:
+                    try:
+                        b = _bind(orig, (self,) + args, kwargs)
+                        b.pop("self", None)
+                        rec._event(site, {k: _copy(v) for k, v in b.items()}, {"owner": cls.__name__})
+                    except Exception as e:   # noqa: BLE001
+                        rec._event(site, {}, {"record_error": repr(e)})
+                return orig(self, *args, **kwargs)
+
+            setattr(cls, name, method)
+            rec._restore.append((cls, name, orig))
+
+        from mchap.assemble.classes import GenotypeMultiTrace
+        from mchap.calling.classes import GenotypeAllelesMultiTrace
+        from mchap.pedigree.classes import PedigreeAllelesMultiTrace
+        for cls in (GenotypeMultiTrace, GenotypeAllelesMultiTrace, PedigreeAllelesMultiTrace):
+            wrap_method(cls, "burn", "burn")
+        for cls in (GenotypeMultiTrace, GenotypeAllelesMultiTrace):
+            wrap_method(cls, "replicate_incongruence", "replicate_incongruence")
         wrap_fit(DenovoMCMC, "DenovoMCMC.fit", "reads", "read_counts")
         wrap_fit(CallingMCMC, "CallingMCMC.fit", "reads", "read_counts")
         wrap_fit(PedigreeCallingMCMC, "PedigreeCallingMCMC.fit", "sample_reads", "sample_read_counts")
@@ -263,9 +335,8 @@ def first_what(fields):
 
 
 class _Ctx:
-    def __init__(self, chk, prop, program, truth, settings, tag, rec):
-        self.chk, self.prop, self.program, self.truth, self.settings, self.tag, self.rec = \
-            chk, prop, program, truth, settings, tag, rec
+    def __init__(self, chk, prop, program, truth, tag, rec):
+        self.chk, self.prop, self.program, self.truth, self.tag, self.rec = chk, prop, program, truth, tag, rec
 
     def violation(self, text, case, what):
         self.chk.violation(f"{self.program}: {text}", {**self.tag, **case}, f"{self.prop}/plumbing/{self.program}/{what}")
@@ -337,14 +408,49 @@ def called_samples(record):
 # the oracle
 # --------------------------------------------------------------------------------------
 
-def check_run(chk, prop, program, run, truth, settings, tag, rec):
+def check_options(chk, prop, program, run, options, tag):
+    """run-wide sampler options: every value given on the command line arrives where the sampler reads it.
+
+    options = {flag without dashes: value given}; run as for `check_run` (+ "haps": Observer records of
+    call_posterior_haplotypes)."""
+    recs = {x["ID"]: x for x in run["records"]}
+    any_called = any(called_samples(recs[loc["locus"]]) for loc in run["reads"] if loc["locus"] in recs)
+    for name, kind, attr in OPTIONS[program]:
+        if name not in options:
+            continue
+        want = options[name]
+        if kind == "fit":
+            got = [(e["locus_idx"], e["fields"].get(attr, "<no such attribute>")) for e in run["events"]
+                   if e["site"] == FIT_SITE[program] and "record_error" not in e]
+            where = f"attribute {attr} of the model object at {FIT_SITE[program]}"
+        elif kind == "haps":
+            got = [(i, h[0]) for i, h in enumerate(run.get("haps", []))]
+            where = "threshold of call_posterior_haplotypes"
+        else:
+            got = [(e["locus_idx"], e["fields"].get(attr, "<no such argument>")) for e in run["events"]
+                   if e["site"] == kind and "record_error" not in e]
+            where = f"argument {attr} of trace.{kind}"
+        chk.count(f"plumbing:{program}:option-{name}", len(got))
+        chk.case({"kind": "plumbing-option", "dataset": tag.get("dataset"), "run": tag.get("run"), "program": program,
+                  "option": name, "value": want}, bool(got) and not same_num(want, DEFAULTS.get(name)))
+        case = {**tag, "option": "--" + name, "given": want, "default": DEFAULTS.get(name), "where": where}
+        bad = [(k, describe(v)) for k, v in got if not same_num(v, want)]
+        if bad:
+            chk.violation(f"{program}: --{name} {want} does not reach the sampler: {where} is {bad[0][1]} "
+                          f"({len(bad)} of {len(got)} calls)", {**case, "calls_with_another_value": bad[:6]},
+                          f"{prop}/plumbing/{program}/option-{name}")
+        elif not got and any_called:
+            chk.violation(f"{program}: --{name} {want} is never used: no call of {where.split(' of ', 1)[1]} in a run that "
+                          f"called genotypes", case, f"{prop}/plumbing/{program}/option-{name}")
+
+
+def check_run(chk, prop, program, run, truth, tag, rec):
     """apply the plumbing oracle to one observed program run.
 
     run = {"records": parsed VCF records, "reads": Observer locus records, "events": Recorder events}
     truth = {"ploidy": {sample: int}, "inbreeding": {sample: float}, "temperatures": {sample: [float]} | None,
-             "pedigree": {"parents": {s: (p|None, q|None)}, "tau": {s: (int, int)}, "lambda": {s: (f, f)}, "error": {s: (f, f)}} | None}
-    settings = {"steps": int, "chains": int, "seed": int | None, "burn": int}"""
-    ctx = _Ctx(chk, prop, program, truth, settings, tag, rec)
+             "pedigree": {"parents": {s: (p|None, q|None)}, "tau": {s: (int, int)}, "lambda": {s: (f, f)}, "error": {s: (f, f)}} | None}"""
+    ctx = _Ctx(chk, prop, program, truth, tag, rec)
     ctx.expected_summary = lambda loc, s: expected_summary(truth, loc, s)
     recs = {x["ID"]: x for x in run["records"]}
     for k, loc in enumerate(run["reads"]):
@@ -385,16 +491,6 @@ def check_run(chk, prop, program, run, truth, settings, tag, rec):
                 w.append("inbreeding")
             return w
 
-        def mcmc_settings(f, burn_field=None):
-            ok = same_num(f.get("steps"), settings["steps"], 0) and same_num(f.get("chains"), settings["chains"], 0)
-            if settings.get("seed") is None:
-                ok = ok and f.get("random_seed") is None
-            else:
-                ok = ok and same_num(f.get("random_seed"), settings["seed"], 0)
-            if burn_field:
-                ok = ok and same_num(f.get(burn_field), settings["burn"], 0)
-            return ok
-
         def obs_scalar(e):
             f = e["fields"]
             out = {k2: describe(v) for k2, v in f.items()
@@ -427,8 +523,6 @@ def check_run(chk, prop, program, run, truth, settings, tag, rec):
                     w.append("temperatures")
                 if not same_list(f.get("n_alleles"), loc["n_alleles"]):
                     w.append("n_alleles")
-                if not mcmc_settings(f):
-                    w.append("mcmc-settings")
                 return w
 
             _site_check(ctx, loc, "DenovoMCMC.fit", by_site.get("DenovoMCMC.fit", []), cmp_fit, True, obs_scalar)
@@ -452,8 +546,6 @@ def check_run(chk, prop, program, run, truth, settings, tag, rec):
                     w.append("haplotypes")
                 if not same_float_array(f.get("frequencies"), m_freqs):
                     w.append("frequencies")
-                if not mcmc_settings(f):
-                    w.append("mcmc-settings")
                 return w
 
             _site_check(ctx, loc, "CallingMCMC.fit", by_site.get("CallingMCMC.fit", []), cmp_fit, valid, obs_scalar)
@@ -579,8 +671,6 @@ def check_run(chk, prop, program, run, truth, settings, tag, rec):
                     w.append("haplotypes")
                 if not same_float_array(f.get("frequencies"), m_freqs):
                     w.append("frequencies")
-                if not mcmc_settings(f, burn_field="annealing"):
-                    w.append("mcmc-settings")
                 if w:
                     ctx.violation(f"the pedigree model at locus {loc['locus']} is not given the locus' {'/'.join(w)}",
                                   {**case0, "recorded": obs_scalar(e)}, first_what(set(w)))
@@ -612,7 +702,8 @@ def _fmt(x):
 
 
 def run_observed(obs, rec, argv):
-    """(stdout, exit code, error text, Observer locus records, Recorder events) of one in-process run"""
+    """(stdout, exit code, error text, Observer locus records, Observer call_posterior_haplotypes records, Recorder events)
+    of one in-process run"""
     obs.active = True
     rec.active = True
     try:
@@ -620,8 +711,8 @@ def run_observed(obs, rec, argv):
     finally:
         obs.active = False
         rec.active = False
-    reads, _, _ = obs.take()
-    return out, code, err, reads, rec.take()
+    reads, haps, _ = obs.take()
+    return out, code, err, reads, haps, rec.take()
 
 
 def run_plumbing(chk, r, work_dir, prop, programs=PROGRAMS, tier="quick", obs=None):
@@ -701,32 +792,34 @@ def _one_dataset(chk, r, work, prop, programs, tier, obs, rec, d):
     chk.count(f"plumbing:dataset:ploidies={sorted(set(ds.ploidy.values()))}")
     chk.count("plumbing:files:line-order-differs-from-bam-order+stranger")
 
-    steps, burn, chains = 200, 100, r.choice([1, 2])
-    seed = r.randint(1, 10 ** 6)
-    mcmc = ["--mcmc-steps", str(steps), "--mcmc-burn", str(burn), "--mcmc-chains", str(chains), "--mcmc-seed", str(seed)]
-    settings = {"steps": steps, "burn": burn, "chains": chains, "seed": seed}
     bams = [ds.sample_bam[s] for s in run_order]
     truth = {"ploidy": dict(ds.ploidy), "inbreeding": inbreeding, "temperatures": temperatures, "pedigree": None}
     tag0 = {"dataset": d, "bam_order": run_order, "ploidy": dict(ds.ploidy), "inbreeding": inbreeding,
             "inbreeding_file_lines": lines_f, "ploidy_file_lines": lines_p, "temperatures": temps_raw}
 
-    def go(program, argv, truth_, settings_, what, apply=True):
+    def go(program, argv, truth_, what, apply=True, options=None):
+        """one observed run; `options`: the non-default sampler options that are appended to argv and checked"""
+        options = options or {}
+        argv = list(argv) + option_argv(options)
         tag = {**tag0, "run": what, "argv": [str(a) for a in argv[1:]]}
-        out, code, err, reads, events = run_observed(obs, rec, argv)
+        out, code, err, reads, haps, events = run_observed(obs, rec, argv)
         if code != 0:
-            chk.violation(f"{program}: the run with per-sample parameter files failed: {err[:400]}", tag,
-                          f"{prop}/plumbing/{program}/run-failed")
+            chk.violation(f"{program}: the run with per-sample parameter files and non-default sampler options failed: {err[:400]}",
+                          tag, f"{prop}/plumbing/{program}/run-failed")
             return None
         _, records = synth.parse_vcf_text(out)
         chk.count(f"plumbing:run:{what}")
         if apply:
-            check_run(chk, prop, program, {"records": records, "reads": reads, "events": events}, truth_, settings_, tag, rec)
+            run = {"records": records, "reads": reads, "haps": haps, "events": events}
+            check_run(chk, prop, program, run, truth_, tag, rec)
+            check_options(chk, prop, program, run, options, tag)
         return out
 
     # ---- assemble (always: it provides the haplotypes)
     asm = ["mchap", "assemble", "--bam", *bams, "--ploidy", p_file, "--inbreeding", f_file, "--mcmc-temperatures", t_file,
-           "--targets", ds.bed, "--variants", ds.snv_vcf, "--reference", ds.fasta, *mcmc, "--report", "GL", "GP", "AFP"]
-    out = go("assemble", asm, truth, settings, "assemble --report GL GP AFP", apply="assemble" in programs)
+           "--targets", ds.bed, "--variants", ds.snv_vcf, "--reference", ds.fasta, "--report", "GL", "GP", "AFP"]
+    out = go("assemble", asm, truth, "assemble --report GL GP AFP", apply="assemble" in programs,
+             options=nondefault_options(r, "assemble"))
     if out is None:
         return
     hv = synth.bgzip_tabix_vcf(synth.write_text(os.path.join(work, "haps.vcf"), out))
@@ -736,20 +829,17 @@ def _one_dataset(chk, r, work, prop, programs, tier, obs, rec, d):
         a = ["mchap", program, "--bam", *bams, "--ploidy", p_file, "--haplotypes", hv]
         if program != "call-pedigree":
             a += ["--inbreeding", f_file]
-        if program != "call-exact":
-            a += mcmc
         return a + list(extra)
 
     if "call" in programs:
-        go("call", call_argv("call", "--report", "GP", "GL", *(prior if r.random() < 0.5 else [])), truth, settings,
-           "call --report GP GL")
+        go("call", call_argv("call", "--report", "GP", "GL", *(prior if r.random() < 0.5 else [])), truth,
+           "call --report GP GL", options=nondefault_options(r, "call"))
         if tier == "thorough":
-            go("call", call_argv("call"), truth, settings, "call")
+            go("call", call_argv("call"), truth, "call", options=nondefault_options(r, "call"))
     if "call-exact" in programs:
-        exact_settings = {**settings, "seed": None}
-        go("call-exact", call_argv("call-exact", *(prior if r.random() < 0.5 else [])), truth, exact_settings, "call-exact")
+        go("call-exact", call_argv("call-exact", *(prior if r.random() < 0.5 else [])), truth, "call-exact")
         go("call-exact", call_argv("call-exact", "--report", *r.choice([["GP"], ["GL"], ["GP", "GL"], ["GP", "GL", "AFP"]]),
-                                   *(prior if r.random() < 0.5 else [])), truth, exact_settings, "call-exact --report GP/GL")
+                                   *(prior if r.random() < 0.5 else [])), truth, "call-exact --report GP/GL")
     if "call-pedigree" in programs:
         # parents precede their children in the dataset order; gamete ploidies sum to the ploidy; a non-zero IBD excess is
         # only legal for diploid gametes; error terms pairwise different
@@ -777,4 +867,4 @@ def _one_dataset(chk, r, work, prop, programs, tier, obs, rec, d):
                    "pedigree": {"parents": parents, "tau": tau, "lambda": lam, "error": err}}
         go("call-pedigree", call_argv("call-pedigree", "--sample-parents", ped_f, "--gamete-ploidy", tau_f, "--gamete-ibd", lam_f,
                                       "--gamete-error", err_f, "--report", "GL", *(prior if r.random() < 0.5 else [])),
-           truth_p, settings, "call-pedigree --report GL")
+           truth_p, "call-pedigree --report GL", options=nondefault_options(r, "call-pedigree"))
